@@ -168,7 +168,7 @@ MD_OPS = [
 class MultiDictHistory(Scenario):
     pid = "C08"
     name = "c08_multidict"
-    cases = {"quick": 60000, "thorough": 1500000}
+    cases = {"quick": 60000, "thorough": 250000}
     chunk = 500
     real = "werkzeug.datastructures MultiDict, ImmutableMultiDict, CombinedMultiDict, FileMultiDict (copy / deepcopy / pickle included)"
     stubs = "the operation history; reference model refmodels/containers.MDModel"
@@ -483,7 +483,7 @@ H_OPS = [
 class HeadersHistory(Scenario):
     pid = "C08"
     name = "c08_headers"
-    cases = {"quick": 60000, "thorough": 1500000}
+    cases = {"quick": 60000, "thorough": 250000}
     chunk = 500
     real = "werkzeug.datastructures Headers and EnvironHeaders (copy / deepcopy / pickle included)"
     stubs = "the operation history; the environ the history mutates; reference model HeadersModel"
@@ -706,7 +706,7 @@ HS_OPS = ["add", "add", "add", "remove", "remove", "discard", "update", "clear",
 class HeaderSetHistory(Scenario):
     pid = "C08"
     name = "c08_headerset"
-    cases = {"quick": 40000, "thorough": 800000}
+    cases = {"quick": 40000, "thorough": 200000}
     chunk = 500
     real = "werkzeug.datastructures.HeaderSet (incl. on_update callback)"
     stubs = "the operation history; reference model HeaderSetModel"
